@@ -24,6 +24,7 @@ Init ==
                 p |-> 1, long |-> FALSE, drift |-> TRUE]
      \/ \E cv \in GateClasses, pn \in GateClasses : in = [kind |-> "gate", cv |-> cv, pn |-> pn]
      \/ \E f \in {"hourly", "daily", "billing"}, nm \in {"good", "other", "poor", "tgaps"} : in = [kind |-> "stored", fam |-> f, name |-> nm, prior |-> "none"]     \* tgaps: hours whose temperature had to be filled while the usage is real
+     \/ \E k \in 1..Len(TQuantiles) : TQuantiles[k].dof \in 2..10 /\ in = [kind |-> "tq", conf |-> TQuantiles[k].conf, tail |-> TQuantiles[k].tail, dof |-> TQuantiles[k].dof]
      \* the same model OBJECT was fitted on another meter before: the statistics it reports are those of the last fit
      \/ \E c \in {<<"daily", "poor", "good">>, <<"daily", "good", "poor">>, <<"billing", "poor", "good">>, <<"billing", "good", "other">>, <<"hourly", "poor", "good">>} :
           in = [kind |-> "stored", fam |-> c[1], name |-> c[2], prior |-> c[3]]
